@@ -509,6 +509,12 @@ pub fn explore<R>(cfg: Cfg, budget: Option<Duration>, body: impl Fn() -> R) -> (
     let mut reports = vec![];
     let mut engine_error: Option<String> = None;
     loop {
+        // the job budget also bounds pure enumeration (paths that never reach the solver)
+        let over = with_ctx(|c| c.deadline.map_or(false, |d| Instant::now() > d));
+        if over {
+            with_ctx(|c| c.stats.incomplete = Some("shape budget exhausted".into()));
+            break;
+        }
         st(|s| s.reset());
         with_ctx(|c| {
             c.pos = 0;
